@@ -27,7 +27,7 @@ TOL = 1e-8
 def strategy(shard):
     la, lb = shard["la"], shard["lb"]
     return st.fixed_dictionaries({
-        "shells": gen.basis(nmin=2, nmax=4, lmax=5, first_ls=(la, lb)),
+        "shells": gen.basis(nmin=2, nmax=4, lmax=5, first_ls=(la, lb)).flatmap(gen.with_prefactor_distance),
         "split": st.integers(1, 3),
     })
 
@@ -49,6 +49,8 @@ def judge(case):
     v.classes.append("mixed" if len(types) == 2 else next(iter(types)))
     if any(len(s["coeffs"][0]) > 1 for s in shells):
         v.classes.append("generalized")
+    if shells[1].get("placed"):
+        v.classes.append("placed-by-prefactor")
     if any(s.get("repaired") for s in shells):
         v.classes.append("cancellation-repaired")
     d, at = maxdev(got, ref)
